@@ -939,6 +939,87 @@ Proof.
   split; [rewrite Hres, Hres'; reflexivity | exact Hr''].
 Qed.
 
+(* ------------------------------------------------------------------ network identities stay below the counter *)
+Definition ids_below (N : nat) (st : state) : Prop := forall i, In i (nets_ids (s_nets st)) -> i < N.
+Definition ids_ok (H : heap) : Prop := Forall (fun kv => ids_below (h_next H) (snd kv)) (h_states H).
+
+Lemma set_net_vals_ids nets vss : nets_ids (set_net_vals nets vss) = nets_ids nets.
+Proof.
+  revert vss; induction nets as [|[nm n] r IH]; intros [|vs vss]; simpl; try reflexivity.
+  unfold nets_ids in *; simpl. rewrite IH; reflexivity.
+Qed.
+
+Lemma load_state_ids lk st : nets_ids (s_nets (fst (load_state lk st))) = nets_ids (s_nets st).
+Proof. unfold load_state. destruct (snd (load_nets lk (s_nets st))); simpl; apply load_nets_ids. Qed.
+
+Lemma fresh_nets_ids_upper a : forall id i, In i (nets_ids (fresh_nets id a)) -> i < id + length a.
+Proof.
+  induction a as [|[nm pa] r IH]; intros id i; simpl; [contradiction|].
+  intros [<-|H]; [lia|]. apply IH in H. lia.
+Qed.
+
+Lemma fresh_nets_length a : forall id, length (fresh_nets id a) = length a.
+Proof. induction a as [|[nm pa] r IH]; intros id; simpl; [reflexivity | rewrite IH; reflexivity]. Qed.
+
+Lemma autoload_ids k lk id st r :
+  autoload k lk id = (Some st, r) -> forall i, In i (nets_ids (s_nets st)) -> id <= i < id + length (s_nets st).
+Proof.
+  unfold autoload.
+  destruct (autoload_ud_arg k lk) as [u0|e]; [|intros; discriminate].
+  destruct (dim0 lk K_AM P_VB) as [nv|e]; [|intros; discriminate].
+  destruct (dim0 lk K_AM P_HB) as [nh|e]; [|intros; discriminate].
+  destruct (autoload_na k lk) as [na|e]; [|intros; discriminate].
+  destruct (ctor_ud u0) as [ud|e]; [|intros; discriminate].
+  set (st0 := mkState k (fresh_nets id (kind_arch k nv nh na)) ud).
+  destruct (snd (load_state lk st0)) eqn:E; [|intros; discriminate].
+  intros H; inversion H; subst. intros i Hi.
+  assert (Hlen : length (s_nets (fst (load_state lk st0))) = length (kind_arch k nv nh na)).
+  { rewrite <- (fresh_nets_length (kind_arch k nv nh na) id).
+    change (fresh_nets id (kind_arch k nv nh na)) with (s_nets st0).
+    rewrite <- (map_length (fun nk => n_id (snd nk)) (s_nets (fst (load_state lk st0)))).
+    rewrite <- (map_length (fun nk => n_id (snd nk)) (s_nets st0)).
+    fold (nets_ids (s_nets (fst (load_state lk st0)))). fold (nets_ids (s_nets st0)). rewrite load_state_ids. reflexivity. }
+  rewrite load_state_ids in Hi. simpl in Hi. rewrite Hlen.
+  split; [exact (fresh_nets_ids _ _ _ Hi) | exact (fresh_nets_ids_upper _ _ _ Hi)].
+Qed.
+
+Lemma ids_below_mono N M st : N <= M -> ids_below N st -> ids_below M st.
+Proof. intros Hle H i Hi. specialize (H i Hi). lia. Qed.
+
+Lemma run_op_ids_ok o H : ids_ok H -> ids_ok (fst (run_op o H)).
+Proof.
+  unfold ids_ok. intros Hs. destruct o; simpl.
+  - destruct (assoc s (h_states H)) eqn:E; simpl; [|exact Hs].
+    apply (Forall_set (ids_below (h_next H))); [exact Hs|].
+    pose proof (Forall_assoc (ids_below (h_next H)) _ _ _ Hs E) as Hb.
+    unfold ids_below; simpl. rewrite set_net_vals_ids. exact Hb.
+  - destruct (assoc s (h_states H)) eqn:E; simpl; [|exact Hs].
+    apply (Forall_set (ids_below (h_next H))); [exact Hs|].
+    pose proof (Forall_assoc (ids_below (h_next H)) _ _ _ Hs E) as Hb.
+    unfold ids_below; simpl. rewrite set_net_vals_ids. exact Hb.
+  - destruct (assoc s (h_states H)) eqn:E; simpl; [|exact Hs].
+    destruct (s_ud s0) as [[?|d|?]|]; simpl; try exact Hs.
+    apply (Forall_set (ids_below (h_next H))); [exact Hs|].
+    exact (Forall_assoc (ids_below (h_next H)) _ _ _ Hs E).
+  - destruct (assoc s (h_states H)); simpl; [|exact Hs].
+    destruct (save_data s0 (md_content H md)); simpl; exact Hs.
+  - exact Hs.
+  - destruct (assoc s (h_states H)) eqn:E; simpl; [|exact Hs].
+    destruct (assoc f (h_files H)); simpl; [|exact Hs].
+    apply (Forall_set (ids_below (h_next H))); [exact Hs|].
+    pose proof (Forall_assoc (ids_below (h_next H)) _ _ _ Hs E) as Hb.
+    unfold ids_below. rewrite load_state_ids. exact Hb.
+  - destruct (assoc f (h_files H)); simpl; [|exact Hs].
+    destruct (autoload k (fun x => assoc x f0) (h_next H)) as [[st|] r] eqn:E; simpl; [|exact Hs].
+    apply (Forall_set (ids_below (h_next H + length (s_nets st)))).
+    + eapply Forall_impl; [|exact Hs]. intros kv Hb. eapply ids_below_mono; [|exact Hb]. lia.
+    + intros i Hi. apply (autoload_ids _ _ _ _ _ E i Hi).
+  - exact Hs.
+Qed.
+
+Lemma run_ids_ok h : forall H, ids_ok H -> ids_ok (fst (run h H)).
+Proof. induction h as [|o h IH]; intros H Hw; simpl; [exact Hw | apply IH, run_op_ids_ok, Hw]. Qed.
+
 (* ------------------------------------------------------------------ non-vacuity *)
 Definition ex_state : state :=
   mkState Complex [(K_AM, mkNet 0 [mkParam P_WEIGHTS [3; 2] 41; mkParam P_VB [2] 42; mkParam P_HB [3] 43]);
@@ -957,5 +1038,7 @@ Example ex_save_twice_ok : snd (run [Save 0 5 (Some 0); Save 0 5 (Some 0); Autol
 Proof. vm_compute. reflexivity. Qed.
 Example ex_reserved_refused : snd (run [MutateMd 0 K_UD 1; Save 0 5 (Some 0)] ex_heap) = [Ok; Err EValue].
 Proof. vm_compute. reflexivity. Qed.
+Example ex_ids_ok : ids_ok ex_heap.
+Proof. constructor; [|constructor]. intros i Hi; simpl in Hi. simpl. destruct Hi as [<-|[<-|[]]]; lia. Qed.
 Example ex_refines_initial : refines ex_heap (core ex_heap, []).
 Proof. split; [reflexivity | intros f; exact I]. Qed.
